@@ -30,6 +30,14 @@
         uses `ServerName` only: an IP literal is cleared (conn.go: "Do not allow the use of an IP
         address literal as an SNI value") and an empty name means `x509.VerifyOptions.DNSName = ""`,
         i.e. NO name or address check at all; the dialled address is never consulted.
+        `Config.VerifyPeerCertificate`, when set, is called after that verification (flight5handler.go;
+        also with InsecureSkipVerify) and its error fails the handshake: it can only refuse more.
+      the exporter's own hook (since 90a2eb6): `leaf.VerifyHostname(expectedName)` on the first
+        certificate the server presented, x509 semantics as above (IP literal against the IP SANs,
+        anything else against the DNS SANs, no Common Name; the empty name matches nothing). WHETHER
+        the hook is installed, for which `ServerName`s and which name it verifies is read off the
+        regenerated facts (`Generated.TLS.hooks`, `dtlsHookOf`): a hook this model does not recognise
+        counts as NO hook, i.e. as the behaviour before the repair (D11).
       pion/dtls v2 server: client certificates are verified only for ClientAuth >=
         VerifyClientCertIfGiven.
   Core Lean only.
@@ -94,6 +102,19 @@ inductive Lib where
   | pionDTLS
   deriving DecidableEq, Repr
 
+/-- a name check of the peer's leaf certificate done by the caller of the library in a
+    `VerifyPeerCertificate` hook: for which kinds of `ServerName` the hook is installed, and whether an
+    empty `ServerName` is replaced by the dialled host (otherwise the empty name is verified, which no
+    certificate is valid for) -/
+structure NameHook where
+  onUnset : Bool        -- installed when ServerName == ""
+  onIP : Bool           -- installed when ServerName is an IP literal
+  onDNS : Bool          -- installed when ServerName is any other name
+  hostFallback : Bool   -- ServerName == "" => the host of the dialled address is verified
+  deriving DecidableEq, Repr
+
+def noHook : NameHook := { onUnset := false, onIP := false, onDNS := false, hostFallback := false }
+
 structure ClientCfg where
   rootsSet : Bool           -- RootCAs set (to the configured CA)
   skipVerify : Bool         -- InsecureSkipVerify
@@ -102,6 +123,7 @@ structure ClientCfg where
   maxVersion : Version
   sendsCert : Bool          -- Certificates set
   extendedMasterSecret : Bool
+  nameHook : NameHook       -- the caller's own name check (pion/dtls client only; crypto/tls configs of the code set none)
   deriving DecidableEq, Repr
 
 inductive ClientAuth where
@@ -119,7 +141,7 @@ structure ServerCfg where
 /-- what a configuration is taken to be when the code no longer has the shape this model reads -/
 def insecureClient : ClientCfg :=
   { rootsSet := false, skipVerify := true, serverNamePassed := false, minVersion := 0, maxVersion := 13,
-    sendsCert := false, extendedMasterSecret := false }
+    sendsCert := false, extendedMasterSecret := false, nameHook := noHook }
 
 def insecureServer : ServerCfg :=
   { hasCert := true, clientAuth := .noClientCert, clientCAsSet := false, minVersion := 0, maxVersion := 13 }
@@ -146,12 +168,19 @@ def parseClientAuth (s : String) : ClientAuth :=
   else if s == "tls.RequestClientCert" || s == "dtls.RequestClientCert" then .request
   else .noClientCert
 
+/-- assignments to a security-relevant field after construction that could WEAKEN a configuration: all of
+    them except those to `VerifyPeerCertificate`, which both stacks call in addition to their own
+    verification (an assigned hook can only refuse more; what it is taken to check is `dtlsHookOf`) -/
+def weakeningAssignments : List (String × String × String × String) :=
+  fieldAssignments.filter fun a => !".VerifyPeerCertificate".toList.isSuffixOf a.2.2.1.toList
+
 /-- a config is taken to skip verification if its literal says so (anything but the literal `false`),
-    or if ANY security-relevant field is assigned after construction anywhere in the three files -/
+    or if ANY security-relevant field other than a `VerifyPeerCertificate` hook is assigned after
+    construction anywhere in the three files -/
 def litSkipsVerify (l : ConfigLit) : Bool :=
   (match field l "InsecureSkipVerify" with
    | some v => v != "false"
-   | none => false) || !fieldAssignments.isEmpty
+   | none => false) || !weakeningAssignments.isEmpty
 
 /-- crypto/tls: MinVersion unset means TLS 1.2 (client: Go >= 1.18, server: Go >= 1.22), MaxVersion unset means TLS 1.3;
     a value this model cannot read counts as "no lower bound" -/
@@ -172,7 +201,8 @@ def tlsClientOfLit (l : ConfigLit) (serverNameExpr : String) : ClientCfg :=
     minVersion := minVersionOf l
     maxVersion := maxVersionOf l
     sendsCert := (field l "Certificates").isSome
-    extendedMasterSecret := true }   -- crypto/tls always negotiates it when the peer supports it
+    extendedMasterSecret := true     -- crypto/tls always negotiates it when the peer supports it
+    nameHook := noHook }
 
 def serverOfLit (l : ConfigLit) (dtls : Bool) : ServerCfg :=
   { hasCert := (field l "Certificates").isSome
@@ -189,7 +219,57 @@ def libTLSClient (hasClientCert : Bool) : ClientCfg :=
   | some l => tlsClientOfLit l "config.ServerName"
   | none => insecureClient
 
-/-- exporter over UDP: the `dtls.Config` literal of `InitExportingProcess` (pion: DTLS 1.2 only) -/
+/-! ### The exporter's name-check hook on the DTLS path -/
+
+/-- the one hook body this model understands: the leaf certificate is parsed from the first raw
+    certificate and `VerifyHostname(expectedName)` is its verdict (any other text = not recognised) -/
+def nameCheckBody : String :=
+  "func(rawCerts [][]byte, _ [][]*x509.Certificate) error { if len(rawCerts) == 0 { return fmt.Errorf(\"the server did not present a certificate\") } leaf, err := x509.ParseCertificate(rawCerts[0]) if err != nil { return err } return leaf.VerifyHostname(expectedName) }"
+
+/-- the conditions on `ServerName` this model can evaluate: (holds when unset, when an IP literal, when another name) -/
+def serverNameConds : List (String × Bool × Bool × Bool) :=
+  [("tlsConfig.ServerName == \"\" || net.ParseIP(tlsConfig.ServerName) != nil", true, true, false),
+   ("net.ParseIP(tlsConfig.ServerName) != nil || tlsConfig.ServerName == \"\"", true, true, false),
+   ("tlsConfig.ServerName == \"\"", true, false, false),
+   ("net.ParseIP(tlsConfig.ServerName) != nil", false, true, false),
+   ("net.ParseIP(tlsConfig.ServerName) == nil", true, false, true),
+   ("tlsConfig.ServerName != \"\"", false, true, true)]
+
+/-- a path condition the hook sits under beyond those of the config literal; one this model cannot read is never satisfied -/
+def condHolds (c : String) : Bool × Bool × Bool := (serverNameConds.lookup c).getD (false, false, false)
+
+/-- which name `expectedName` holds when the hook runs, from the assignments that reach it:
+    `some true`: ServerName, replaced by the host of CollectorAddress when empty; `some false`: ServerName as it is -/
+def expectedNameOf (defs : List LocalDef) : Option Bool :=
+  let ds := defs.filter (·.lhs == "expectedName")
+  if ds.map (·.rhs) == ["tlsConfig.ServerName", "host"] &&
+      ds.all (fun d => d.rhs != "host" || d.conds.contains "expectedName == \"\"") &&
+      (defs.filter (·.lhs == "host, _, err")).map (·.rhs) == ["net.SplitHostPort(input.CollectorAddress)"] then some true
+  else if ds.map (·.rhs) == ["tlsConfig.ServerName"] then some false
+  else none
+
+/-- the name check the DTLS exporter adds to the `dtls.Config` literal `l`, as a function of the extracted
+    hooks and field assignments. It is recognised only if: `config.VerifyPeerCertificate` is assigned exactly
+    once in `InitExportingProcess`, on the DTLS path, with `nameCheckBody`; `config` there is the `dtls.Config`
+    literal and `tlsConfig` the caller's `TLSClientConfig`; and `expectedName` is defined in one of the two
+    ways `expectedNameOf` knows. Anything else counts as NO hook. -/
+def dtlsHookOf (hs : List Hook) (assigns : List (String × String × String × String)) (l : ConfigLit) : NameHook :=
+  let mine := assigns.filter fun a => a.2.1 == "InitExportingProcess" && a.2.2.1 == "config.VerifyPeerCertificate"
+  match hs.filter (fun h => h.func == "InitExportingProcess" && h.lhs == "config.VerifyPeerCertificate") with
+  | [h] =>
+    if mine.map (·.2.2.2) == [h.body] && h.body == nameCheckBody && l.conds.all h.conds.contains &&
+        (h.defs.filter (·.lhs == "config")).map (fun d => "&dtls.Config{".toList.isPrefixOf d.rhs.toList) == [true] &&
+        (h.defs.filter (·.lhs == "tlsConfig")).map (·.rhs) == ["input.TLSClientConfig"] then
+      match expectedNameOf h.defs with
+      | none => noHook
+      | some fb =>
+        let extra := (h.conds.filter fun c => !l.conds.contains c).map condHolds
+        { onUnset := extra.all (·.1), onIP := extra.all (·.2.1), onDNS := extra.all (·.2.2), hostFallback := fb }
+    else noHook
+  | _ => noHook
+
+/-- exporter over UDP: the `dtls.Config` literal of `InitExportingProcess` (pion: DTLS 1.2 only) plus the
+    name-check hook assigned to it -/
 def libDTLSClient : ClientCfg :=
   match pick "InitExportingProcess" "dtls.Config" "input.CollectorProtocol == \"udp\"" with
   | some l =>
@@ -199,7 +279,8 @@ def libDTLSClient : ClientCfg :=
       minVersion := 12
       maxVersion := 12
       sendsCert := (field l "Certificates").isSome
-      extendedMasterSecret := field l "ExtendedMasterSecret" == some "dtls.RequireExtendedMasterSecret" }
+      extendedMasterSecret := field l "ExtendedMasterSecret" == some "dtls.RequireExtendedMasterSecret"
+      nameHook := dtlsHookOf hooks fieldAssignments l }
   | none => insecureClient
 
 /-- collector over TCP: `createServerConfig`, the branch without / with a client CA -/
@@ -281,17 +362,34 @@ def pionCheckedName (cfg : ClientCfg) (serverName : Option Name) : Option Name :
     | _ => none
   else none
 
-def pionVerifiesServer (cfg : ClientCfg) (serverName : Option Name) (cert : PeerCert) (now : Nat) : Bool :=
+/-- pion's own verification (`verifyServerCert`) -/
+def pionOwnVerification (cfg : ClientCfg) (serverName : Option Name) (cert : PeerCert) (now : Nat) : Bool :=
   cfg.skipVerify ||
     (chainsTo cfg.rootsSet cert && withinValidity cert now &&
       match pionCheckedName cfg serverName with
       | none => true
       | some n => nameMatches n cert)
 
+def NameHook.installedFor (h : NameHook) : Option Name → Bool
+  | none => h.onUnset
+  | some (.ip _) => h.onIP
+  | some (.dns _) => h.onDNS
+
+/-- the caller's `VerifyPeerCertificate` hook: where it is installed, `leaf.VerifyHostname(expectedName)` must succeed -/
+def hookVerifiesName (h : NameHook) (serverName : Option Name) (host : Name) (cert : PeerCert) : Bool :=
+  !h.installedFor serverName ||
+    match serverName with
+    | some n => nameMatches n cert
+    | none => h.hostFallback && nameMatches host cert
+
+/-- the pion client accepts the server iff its own verification passes AND the hook, where installed, does -/
+def pionVerifiesServer (cfg : ClientCfg) (serverName : Option Name) (host : Name) (cert : PeerCert) (now : Nat) : Bool :=
+  pionOwnVerification cfg serverName cert now && hookVerifiesName cfg.nameHook serverName host cert
+
 def verifiesServer (lib : Lib) (cfg : ClientCfg) (serverName : Option Name) (host : Name) (cert : PeerCert) (now : Nat) : Bool :=
   match lib with
   | .cryptoTLS => cryptoTLSVerifiesServer cfg serverName host cert now
-  | .pionDTLS => pionVerifiesServer cfg serverName cert now
+  | .pionDTLS => pionVerifiesServer cfg serverName host cert now
 
 /-- the certificate the client puts on the wire -/
 def presented (client : ClientCfg) (clientCert : Option PeerCert) (srv : ServerCfg) : Option PeerCert :=
@@ -465,7 +563,7 @@ def libCfgs : LibCfgs :=
 
 def rawClient (maxV : Version) (hasCert : Bool) : ClientCfg :=
   { rootsSet := true, skipVerify := false, serverNamePassed := true, minVersion := 10, maxVersion := maxV,
-    sendsCert := hasCert, extendedMasterSecret := true }
+    sendsCert := hasCert, extendedMasterSecret := true, nameHook := noHook }
 
 def rawServer (maxV : Version) (caGiven : Bool) : ServerCfg :=
   { hasCert := true, clientAuth := if caGiven then .requireAndVerify else .noClientCert, clientCAsSet := caGiven,
@@ -520,5 +618,9 @@ def sessionWith (L : LibCfgs) (c : Cell) : Outcome :=
 
 /-- the model's outcome for a cell, with the configurations the code builds NOW -/
 def session (c : Cell) : Outcome := sessionWith libCfgs c
+
+/-- the configurations of the code with the DTLS exporter's name-check hook taken away (what `libCfgs` is when
+    the facts hold no recognisable hook: `dtlsHookOf [] [] l = noHook`), i.e. the tree before 90a2eb6 -/
+def LibCfgs.withoutDTLSHook (L : LibCfgs) : LibCfgs := { L with dtlsClient := { L.dtlsClient with nameHook := noHook } }
 
 end Ipfix.TLS
